@@ -68,12 +68,13 @@ namespace KV.C11
 open KV KV.Netlist KV.Transform KV.TL KV.DS KV.Sig
 
 /-- **from TEXT**: the dump with names of the circuit built from the model's reading of the printed module text is `verilogNNet` of
-the transformed statement list -/
+the transformed statement list — for texts inside the raise guard (`hpos`, `hrok`: `verilog_text_accepted`) -/
 theorem verilog_text_to_nnet (cfg : Cfg) (tl : TL) (m : KV.VerilogText.VModule) (rs : List RStmt)
-    (hv : KV.VerilogText.validModule m = true) (hr : KV.VerilogText.toRs m.stmts = some rs) :
+    (hv : KV.VerilogText.validModule m = true) (hr : KV.VerilogText.toRs m.stmts = some rs)
+    (hpos : m.stmts.any KV.VerilogText.VStmt.hasPos = false) (hrok : rs.all RStmt.ok = true) :
     (KV.VerilogText.circOfText cfg tl (KV.VerilogText.printVerilog [m])).map (fun C => C.toNNet C.ioVerilog) =
       some (verilogNNet cfg tl m.ports (rs.map transform)) := by
-  rw [verilog_text_to_netlist cfg tl m rs hv hr]
+  rw [verilog_text_accepted cfg tl m rs hv hr hpos hrok]
   rfl
 
 /-- **(a) hole-set `verilog_parsed_sem`**: `HI` any set of instances, `S` the set of their nodes: consistent outside `S` ⇔ model
@@ -240,9 +241,13 @@ theorem verilog_library_end_to_end (cfg : Cfg) (tl : TL) (ports : List String) (
           vCaptures tl ports stmts false prim2 σ :=
   verilog_library_sim (vok_of cfg tl ports stmts hok) lib (libClean_of hcl) h' hw hrok he row ord hcert hsn order ho hfk hall env hz
 
-/-- **from TEXT**: `nn` the dump of the circuit built from the model's reading of the printed module text, `h'` its resolution -/
+/-- **from TEXT**: `nn` the dump of the circuit built from the model's reading of the printed module text, `h'` its resolution.
+`hpos` / `hsok` (audit 2, finding 1): the text is inside the raise guard of `circOfText` — no positional pin, no sized constant
+`sigsel` raises on (`RStmt.ok`; the driver evaluates `verilogOKB && rs.all RStmt.ok` per case) — so the theorem does not speak
+about texts the real parser rejects (example `exBadM` below) -/
 theorem verilog_library_text_end_to_end (cfg : Cfg) (tl : TL) (m : KV.VerilogText.VModule) (rs : List RStmt)
     (hv : KV.VerilogText.validModule m = true) (hr : KV.VerilogText.toRs m.stmts = some rs)
+    (hpos : m.stmts.any KV.VerilogText.VStmt.hasPos = false) (hsok : rs.all RStmt.ok = true)
     (hok : verilogOKB cfg tl m.ports (rs.map transform) = true) (lib : Lib) (hcl : libCleanB lib (rs.map transform) = true)
     (nn h' : NNet)
     (hnn : (KV.VerilogText.circOfText cfg tl (KV.VerilogText.printVerilog [m])).map (fun C => C.toNNet C.ioVerilog) = some nn)
@@ -260,7 +265,7 @@ theorem verilog_library_text_end_to_end (cfg : Cfg) (tl : TL) (m : KV.VerilogTex
       (nn.net.sNodes.map fun n => (h'.net.node n).inPin 0 |>.map
         (exec semL2n ((genOps Gen.kindPrefixes h'.net order false).map OpRow.toOp) env)) =
           vCaptures tl m.ports (rs.map transform) false prim2 σ := by
-  rw [verilog_text_to_nnet cfg tl m rs hv hr] at hnn
+  rw [verilog_text_to_nnet cfg tl m rs hv hr hpos hsok] at hnn
   cases hnn
   exact verilog_library_end_to_end cfg tl m.ports (rs.map transform) hok lib hcl h' hw hrok he row ord hcert hsn order ho hfk hall env hz
 
@@ -403,13 +408,31 @@ theorem exModel : vEvalLib (libHas exLibN) exRowN exTLn exLM.ports exLS (fun p =
 the parsed circuit, carrying the signal `y`) is the value the datasheet model gives `y` -/
 example : exec semL2n ((genOps Gen.kindPrefixes exH.net exOrder false).map OpRow.toOp) exEnv 9 = true := by
   have hnn : (circOfText {} exTLn (printVerilog [exLM])).map (fun C => C.toNNet C.ioVerilog) = some exNN :=
-    verilog_text_to_nnet {} exTLn exLM exLRs exLM_valid exLM_rs
-  obtain ⟨σ, _, huniq, hlines, _⟩ := verilog_library_text_end_to_end {} exTLn exLM exLRs exLM_valid exLM_rs exLS_ok exLibN exLib_clean
+    verilog_text_to_nnet {} exTLn exLM exLRs exLM_valid exLM_rs (by decide +kernel) (by decide +kernel)
+  obtain ⟨σ, _, huniq, hlines, _⟩ := verilog_library_text_end_to_end {} exTLn exLM exLRs exLM_valid exLM_rs
+    (by decide +kernel) (by decide +kernel) exLS_ok exLibN exLib_clean
     exNN exH hnn exNN_wf exNN_rok exH_eq exRowN exOrdN exCerts exH_sn exOrder exH_sched.1 exH_sched.2.1 exH_sched.2.2 exEnv
     (by decide +kernel)
   have hσ := huniq _ (verilog_lib_checker_sound _ _ _ _ _ _ _ exModel.2)
   rw [hlines 9 (by decide +kernel), ← hσ]
   decide +kernel
+
+/-! ### the raise guard (audit 2, finding 1): a text the real parser REJECTS is outside the text-level theorems
+
+`module top(a, y); input a; output y; wire n; INV_X1 u1(.I(1'b2), .ZN(n)); INV_X1 u2(.I(n), .ZN(y)); endmodule` — the real
+`verilog.parse` raises `ValueError: invalid literal for int() with base 2: '2'`.  Every OTHER hypothesis of
+`verilog_library_text_end_to_end` holds for it (`verilogOKB` included — the witness of the audit); the hypothesis `hsok`
+(`rs.all RStmt.ok`, evaluated by the driver on every case: `okv := verilogOKB … && rs.all RStmt.ok`) does not, and the model's own
+reading of the text has `err = true`. -/
+def exBadM : KV.VerilogText.VModule := ⟨"top", ["a", "y"],
+  [.decl .input none ["a"], .decl .output none ["y"], .decl .wire none ["n"],
+   .inst "INV_X1" "u1" [.named "I" (some (.sig "1'b2" none)), .named "ZN" (some (.sig "n" none))],
+   .inst "INV_X1" "u2" [.named "I" (some (.sig "n" none)), .named "ZN" (some (.sig "y" none))]]⟩
+
+example : KV.VerilogText.validModule exBadM = true ∧ exBadM.stmts.any KV.VerilogText.VStmt.hasPos = false ∧
+    (KV.VerilogText.toRs exBadM.stmts).map (fun rs => (rs.all RStmt.ok, verilogOKB {} exTLn exBadM.ports (rs.map transform))) =
+      some (false, true) ∧
+    (KV.VerilogText.circOfText {} exTLn (KV.VerilogText.printVerilog [exBadM])).map (·.err) = some true := by decide +kernel
 
 /-- … and the same value by evaluating the program directly (independent of the theorem) -/
 example : exec semL2n ((genOps Gen.kindPrefixes exH.net exOrder false).map OpRow.toOp) exEnv 9 = true := by decide +kernel
